@@ -8,6 +8,7 @@ package sftp
 
 import (
 	"bytes"
+	"errors"
 	"fmt"
 	"io"
 	"os"
@@ -92,10 +93,69 @@ func init() {
 				sess.Stop(cl)
 			}
 		}
+		// second half: a handler-based server whose store breaks off in the middle of the file. Whatever the error is, a read
+		// path must not present the prefix as the whole file: a nil error or io.EOF before the true end is a violation.
+		content := c01FilePat(6444)
+		for _, P := range []int{512, 1024} {
+			for o := 0; o < 8; o++ {
+				for ei, ferr := range []error{io.ErrUnexpectedEOF, fmt.Errorf("object store: %w", io.ErrUnexpectedEOF), errors.New("backend gone"), os.ErrPermission} {
+					for _, at := range []int64{3072, 3000, 0} {
+						i++
+						if !c.Mine(i) {
+							continue
+						}
+						cfg := c01Cfg{P: P, K: 2, CR: o&1 != 0, FS: o&2 != 0, Server: "rs", Alloc: o&4 != 0}
+						var so []RequestServerOption
+						if cfg.Alloc {
+							so = append(so, WithRSAllocator())
+						}
+						h := newBMHandler()
+						mf := h.file("/f", true)
+						mf.set(content)
+						mf.failAt, mf.failErr = at, ferr
+						sess := bServeRS(h.handlers(), so...)
+						cl, err := sess.Client(MaxPacketUnchecked(cfg.P), MaxConcurrentRequestsPerFile(cfg.K), UseConcurrentReads(cfg.CR), UseFstat(cfg.FS))
+						if err != nil {
+							res.EngineError = err.Error()
+							return res
+						}
+						bad := func(what, format string, a ...any) {
+							res.Violate("C01", "c01-special:"+what, fmt.Sprintf("[%v] store of %d bytes breaks off at %d with %q: ", cfg, len(content), at, ferr)+fmt.Sprintf(format, a...), map[string]any{"cfg": cfg.String(), "at": at, "err": ei}, nil)
+						}
+						judge := func(what string, n int, got []byte, err error) {
+							res.Case(fmt.Sprintf("%v %s at=%d err=%d", cfg, what, at, ei))
+							if err == nil || err == io.EOF {
+								bad("broke-off:"+what, "%s returned %d bytes with error %v: the prefix is presented as the whole file", what, n, err)
+							} else if n > int(at) || !bytes.Equal(got[:n], content[:n]) {
+								bad("broke-off-data:"+what, "%s returned %d bytes (error %v) that are not a prefix of what the store delivered", what, n, err)
+							}
+						}
+						if f, err := cl.Open("/f"); err != nil {
+							bad("open", "Open: %v", err)
+						} else {
+							got, err := io.ReadAll(f)
+							judge("Read until EOF", len(got), got, err)
+							buf := make([]byte, len(content))
+							n, err := f.ReadAt(buf, 0)
+							judge("ReadAt", n, buf, err)
+							f.Seek(0, io.SeekStart)
+							var out bytes.Buffer
+							n64, err := f.WriteTo(&out)
+							if int(n64) != out.Len() {
+								bad("writeto-count", "WriteTo returned %d but wrote %d bytes", n64, out.Len())
+							}
+							judge("WriteTo", out.Len(), out.Bytes(), err)
+							f.Close()
+						}
+						sess.Stop(cl)
+					}
+				}
+			}
+		}
 		res.States = res.Evaluations
-		res.Bound = fmt.Sprintf("%d files x 3 packet sizes x {concurrent reads, fstat, allocator, K in {1,2}} x 3 read paths", len(files))
+		res.Bound = fmt.Sprintf("%d files x 3 packet sizes x {concurrent reads, fstat, allocator, K in {1,2}} x 3 read paths; plus a store that breaks off at 3 offsets x 4 error values x 2 packet sizes x 8 option sets x 3 read paths", len(files))
 		if len(files) == 0 {
-			res.Bound = "no procfs file with stat size 0 is readable here: nothing explored"
+			res.Bound = "no procfs file with stat size 0 is readable here; store-breaks-off half only"
 		}
 		return res
 	})
